@@ -267,7 +267,7 @@ def run_shape(shape):
             elif sparse:
                 A = sp.DCsr(A)
             il = None if use_none else [list(g) for g in P]
-            models = dict(csr_array=sp.csr_array, coo_array=sp.coo_array, diags=sp.diags) if exact else dict(csr_array=sp.DCsr, coo_array=sp.DCoo, diags=sp.ddiags)
+            models = dict(csr_array=sp.csr_array, coo_array=sp.coo_array, csc_array=sp.csc_array, diags=sp.diags) if exact else dict(csr_array=sp.DCsr, coo_array=sp.DCoo, csc_array=sp.DCsc, diags=sp.ddiags)
             with bound(RM, print=noprint, np=proxy, **models):
                 try:
                     # another matrix of the same process goes through a merge and a deletion first
